@@ -78,6 +78,26 @@ pub fn plane_sprite(plane: &Plane, modes: &[u16]) -> Sprite {
         }
         return sp;
     }
+    if plane.family == "Y-grayscale-sprite" {
+        // grayscale sprite: the cels store (v, a); the planes hold the same pixels as (v, v, v, a)
+        let gray = |v: &[u32]| -> Vec<u8> { v.iter().flat_map(|p| { let c = unpack(*p); [c[0], c[3]] }).collect() };
+        let (bg, sg) = (gray(&plane.back), gray(&plane.src));
+        let mut sp = Sprite::blank(plane.w, plane.h, Fmt::Gray, modes.len());
+        sp.layers.push(LayerM::image("backdrop"));
+        for (k, m) in modes.iter().enumerate() {
+            let mut l = LayerM::image(MODE_NAMES[*m as usize]);
+            l.blend = *m;
+            l.opacity = plane.lo;
+            sp.layers.push(l);
+            if k == 0 {
+                sp.cels.insert((0, 0), CelM { x: 0, y: 0, opacity: 255, content: CelContentM::Image { w: plane.w, h: plane.h, pixels: bg.clone() }, ud: None });
+            } else {
+                sp.cels.insert((k as u16, 0), CelM { x: 0, y: 0, opacity: 255, content: CelContentM::Link(0), ud: None });
+            }
+            sp.cels.insert((k as u16, 1 + k as u16), CelM { x: 0, y: 0, opacity: plane.co, content: CelContentM::Image { w: plane.w, h: plane.h, pixels: sg.clone() }, ud: None });
+        }
+        return sp;
+    }
     let mut sp = Sprite::blank(plane.w, plane.h, Fmt::Rgba, modes.len());
     let mut l0 = LayerM::image("backdrop");
     l0.blend = 0;
@@ -85,8 +105,27 @@ pub fn plane_sprite(plane: &Plane, modes: &[u16]) -> Sprite {
     sp.layers.push(l0);
     let backb = px_bytes(&plane.back);
     let srcb = px_bytes(&plane.src);
+    if plane.family == "S-shifted-sparse-cel" {
+        // the source cel is a rectangle of its own, partly off the canvas, mostly empty; the plane's `src` is what of
+        // it lies on the canvas (nothing = transparent). The backdrop is a full-canvas cel.
+        let nums: Vec<u64> = plane.label.split(|c: char| !c.is_ascii_digit()).filter(|s| !s.is_empty()).map(|s| s.parse().unwrap()).collect();
+        let sh = shifted_data(nums[0], nums[1]);
+        for (k, m) in modes.iter().enumerate() {
+            let mut l = LayerM::image(MODE_NAMES[*m as usize]);
+            l.blend = *m;
+            l.opacity = plane.lo;
+            sp.layers.push(l);
+            if k == 0 {
+                sp.cels.insert((0, 0), CelM { x: 0, y: 0, opacity: 255, content: CelContentM::Image { w: plane.w, h: plane.h, pixels: backb.clone() }, ud: None });
+            } else {
+                sp.cels.insert((k as u16, 0), CelM { x: 0, y: 0, opacity: 255, content: CelContentM::Link(0), ud: None });
+            }
+            sp.cels.insert((k as u16, 1 + k as u16), CelM { x: sh.x, y: sh.y, opacity: plane.co, content: CelContentM::Image { w: sh.cw, h: sh.ch, pixels: px_bytes(&sh.cel) }, ud: None });
+        }
+        return sp;
+    }
     // family U: the BACKDROP is a tilemap cel on the lowest layer (8x8 tiles cut from the backdrop plane)
-    let backdrop_tilemap = plane.family == "U-backdrop-tilemap";
+    let backdrop_tilemap = plane.family == "U-backdrop-tilemap" || plane.family == "V-two-tilesets";
     if backdrop_tilemap {
         let (tw, th) = (8u16, 8u16);
         let (mw, mh) = (plane.w / tw, plane.h / th);
@@ -103,7 +142,7 @@ pub fn plane_sprite(plane: &Plane, modes: &[u16]) -> Sprite {
         sp.layers[0].kind = LayerKind::Tilemap(7);
     }
     // family T: the source reaches the blender through a tilemap cel (8x8 tiles cut from the source plane)
-    let via_tilemap = plane.family == "T-through-tilemap";
+    let via_tilemap = plane.family == "T-through-tilemap" || plane.family == "V-two-tilesets";
     let (tw, th) = (8u16, 8u16);
     let (mw, mh) = (plane.w / tw, plane.h / th);
     if via_tilemap {
@@ -537,6 +576,124 @@ pub fn plane_t(seed: u64, p: u64) -> Plane {
     Plane { family: "T-through-tilemap", label: format!("T(p={})", p), back, src, lo, co, w, h }
 }
 
+/// [Y] grayscale sprites: every (backdrop value, source value) pair at one (backdrop alpha, source alpha) pair per
+/// plane. asefile blends grayscale cels as the RGBA pixels (v, v, v, a) (C06), so the oracle is the RGBA blender -
+/// whose Hue / Saturation modes do NOT keep gray over gray gray (the saturation-sort quirk).
+pub fn plane_y(seed: u64, p: u64) -> Plane {
+    let mut rng = Rng::derive(seed, "Y", p);
+    const AL: [u8; 6] = [255, 254, 128, 127, 1, 0];
+    let (ba, sa) = if p < 36 { (AL[(p / 6) as usize], AL[(p % 6) as usize]) } else { (rng.u8(), rng.u8()) };
+    let mut back = Vec::with_capacity(65536);
+    let mut src = Vec::with_capacity(65536);
+    for i in 0..65536u32 {
+        let (b, s) = ((i & 255) as u8, (i >> 8) as u8);
+        back.push(pack([b, b, b, ba]));
+        src.push(pack([s, s, s, sa]));
+    }
+    let (lo, co) = if p % 3 == 0 { (255, 255) } else { (rng.opacity(), rng.opacity()) };
+    Plane { family: "Y-grayscale-sprite", label: format!("Y(p={},ba={},sa={})", p, ba, sa), back, src, lo, co, w: 256, h: 256 }
+}
+
+pub struct Shifted {
+    pub w: u16,
+    pub h: u16,
+    pub x: i16,
+    pub y: i16,
+    pub cw: u16,
+    pub ch: u16,
+    pub cel: Vec<u32>,
+    pub back: Vec<u32>,
+}
+
+/// [S] data: a canvas whose backdrop has an opaque part, a transparent part and a translucent part (split along a
+/// random column and row), and a source cel that hangs over one, two or more canvas edges and is mostly empty -
+/// blank rows, blank columns, blobs with gaps - as drawings are.
+pub fn shifted_data(seed: u64, p: u64) -> Shifted {
+    let mut rng = Rng::derive(seed, "S", p);
+    let (w, h) = (rng.range(4, 40) as u16, rng.range(4, 40) as u16);
+    let (cw, ch) = (rng.range(2, 48) as u16, rng.range(2, 48) as u16);
+    // offsets: over the top/left edge, over the bottom/right edge, inside, exactly aligned
+    let off = |rng: &mut Rng, canvas: u16, size: u16| -> i16 {
+        match rng.below(5) {
+            0 | 1 => -(rng.range(1, size as i64 - 1) as i16),
+            2 => (canvas as i64 - rng.range(1, size as i64 - 1)).max(0) as i16,
+            3 => rng.range(0, canvas as i64 - 1) as i16,
+            _ => 0,
+        }
+    };
+    let (x, y) = (off(&mut rng, w, cw), off(&mut rng, h, ch));
+    let mut cel: Vec<u32> = (0..cw as usize * ch as usize).map(|_| rng.u32() | if rng.chance(1, 2) { 0xff00_0000 } else { 0 }).collect();
+    // emptiness pattern
+    let style = p % 4;
+    for cy in 0..ch as usize {
+        let row_blank = (style == 0 || style == 2) && rng.chance(1, 2);
+        for cx in 0..cw as usize {
+            let col_blank = (style == 1 || style == 2) && (cx * 7 + p as usize) % 3 == 0;
+            let lead_blank = style == 3 && cx < (cw as usize) / 2;
+            if row_blank || col_blank || lead_blank {
+                cel[cy * cw as usize + cx] = 0;
+            }
+        }
+    }
+    let (sx, sy) = (rng.range(0, w as i64) as usize, rng.range(0, h as i64) as usize);
+    let variant = rng.below(3);
+    let back: Vec<u32> = (0..w as usize * h as usize)
+        .map(|i| {
+            let (px, py) = (i % w as usize, i / w as usize);
+            let c = rng.u32();
+            match (px < sx, py < sy, variant) {
+                (true, _, 0) | (_, true, 1) => c | 0xff00_0000,
+                (false, false, _) => 0,
+                _ => c,
+            }
+        })
+        .collect();
+    Shifted { w, h, x, y, cw, ch, cel, back }
+}
+
+pub fn plane_s(seed: u64, p: u64) -> Plane {
+    let sh = shifted_data(seed, p);
+    let mut src = vec![0u32; sh.w as usize * sh.h as usize];
+    for cy in 0..sh.ch as i64 {
+        for cx in 0..sh.cw as i64 {
+            let (px, py) = (cx + sh.x as i64, cy + sh.y as i64);
+            if px >= 0 && py >= 0 && px < sh.w as i64 && py < sh.h as i64 {
+                src[(py * sh.w as i64 + px) as usize] = sh.cel[(cy * sh.cw as i64 + cx) as usize];
+            }
+        }
+    }
+    let mut rng = Rng::derive(seed, "S-op", p);
+    let (lo, co) = if p % 2 == 0 { (255, 255) } else { (rng.opacity(), rng.opacity()) };
+    Plane { family: "S-shifted-sparse-cel", label: format!("S(seed={},p={})", seed, p), back: sh.back, src, lo, co, w: sh.w, h: sh.h }
+}
+
+/// [V] backdrop AND source are tilemap cels, on two different tilesets whose tiles carry the same ids; whole tiles
+/// are blank in one tileset where the other one is painted (erased tiles keep their id)
+pub fn plane_v(seed: u64, p: u64) -> Plane {
+    let mut rng = Rng::derive(seed, "V", p);
+    let (w, h) = (64u16, 64u16);
+    let n = w as usize * h as usize;
+    let mut back: Vec<u32> = (0..n).map(|_| rng.u32() | if rng.chance(1, 2) { 0xff00_0000 } else { 0 }).collect();
+    let mut src: Vec<u32> = (0..n).map(|_| rng.u32() | if rng.chance(1, 2) { 0xff00_0000 } else { 0 }).collect();
+    for ty in 0..8usize {
+        for tx in 0..8usize {
+            let which = rng.below(4);
+            for y in 0..8usize {
+                for x in 0..8usize {
+                    let i = (ty * 8 + y) * w as usize + tx * 8 + x;
+                    match which {
+                        0 => back[i] = 0,
+                        1 => src[i] = 0,
+                        _ => {}
+                    }
+                }
+            }
+        }
+    }
+    let (lo, co) = if p % 2 == 0 { (255, 255) } else { (rng.opacity(), rng.opacity()) };
+    Plane { family: "V-two-tilesets", label: format!("V(p={})", p), back, src, lo, co, w, h }
+}
+
 /// [G] cels with more than 65536 pixels (row offsets and pixel counts beyond 16 bits, up to a megapixel):
 /// random pairs at random opacities
 pub fn plane_g(seed: u64, p: u64) -> Plane {
@@ -713,6 +870,9 @@ pub enum Job {
     U { p: u64 },
     O { p: u64 },
     I { p: u64 },
+    Y { p: u64 },
+    S { p: u64 },
+    V { p: u64 },
 }
 
 pub fn alpha_lattice_24() -> Vec<u8> {
@@ -784,6 +944,15 @@ pub fn schedule(tier: Tier, seed: u64) -> Vec<Job> {
     for p in 0..tier.pick(40, 600) {
         jobs.push(Job::I { p });
     }
+    for p in 0..tier.pick(12, 120) {
+        jobs.push(Job::Y { p: if tier.pick(true, false) && p < 9 { (p * 7 + seed) % 36 } else if tier.pick(true, false) { 36 + p } else { p } });
+    }
+    for p in 0..tier.pick(400, 8000) {
+        jobs.push(Job::S { p });
+    }
+    for p in 0..tier.pick(24, 400) {
+        jobs.push(Job::V { p });
+    }
     jobs
 }
 
@@ -802,6 +971,9 @@ pub fn job_plane(job: &Job, seed: u64) -> (Plane, &'static [u16]) {
         Job::U { p } => (plane_u(seed, *p), &ALL_MODES),
         Job::O { p } => (plane_o(seed, *p), &ALL_MODES),
         Job::I { p } => (plane_i(seed, *p), &ALL_MODES),
+        Job::Y { p } => (plane_y(seed, *p), &ALL_MODES),
+        Job::S { p } => (plane_s(seed, *p), &ALL_MODES),
+        Job::V { p } => (plane_v(seed, *p), &ALL_MODES),
     }
 }
 
